@@ -126,7 +126,7 @@ def planSt (w : World) (hc : HCfg) : Ty → HVal → Option Cell → Option Obj 
   | .union cs hn, v, view, obj =>
       match obj with
       | some o => match unionPick w cs hn o with
-        | .ok m => planClsSt w hc.cfg m v view obj
+        | .ok m => if cs.contains m then planClsSt w hc.cfg m v view obj else .fail   -- (the decision function only names members)
         | .none => .leaf .none
         | _ => .fail
       | none => .fail
